@@ -387,6 +387,26 @@ theorem load_then_add_duplicates :
 /-- …and with the lock that interleaving is impossible (the second caller cannot enter). -/
 example : (ThreadId.run true ThreadId.init [.acquire 1, .acquire 2]).isSome = false := by decide
 
+/-- Negative witness: the protocol *with* a reset of the counter (after all callers have left,
+    under the lock or not) hands out an id a second time — the first holder may still be using it. -/
+theorem reset_reuses_ids :
+    (ThreadId.runR true ThreadId.init [.acquire 1, .load 1, .add 1, .release 1, .reset,
+      .acquire 2, .load 2, .add 2, .release 2]).map (·.issued) = some [1, 1] := by decide
+
+/-- `ids_distinct` is about the protocol without reset: `step` never enables it. -/
+theorem reset_not_in_protocol (locked : Bool) (s : ThreadId.State) :
+    ThreadId.step locked s .reset = none := rfl
+
+/-- Nothing in package `engine/pool` (regenerated on every run: `Ecal.Gen.C12.idCounterWrites`,
+    every write to the id counter field in the whole package) assigns the id counter other than
+    its initialisation in the constructor: it is only ever incremented, over every life-cycle of
+    the pool (JoinAll, SetWorkerCount, restart). -/
+theorem id_counter_monotone :
+    ThreadId.counterMonotone Ecal.Gen.C12.idCounterWrites = some true := by decide
+
+example : ThreadId.counterMonotone [("NewThreadID", "inc"), ("JoinAll", "assign")] = some false := by decide
+example : ThreadId.counterMonotone [("NewThreadID", "inc"), ("f", "unknown")] = none := by decide
+
 /-- The shape of `NewThreadID` extracted from `/repo` on every run (`Ecal.Gen.C12.idSkeleton`):
     the read and the increment of the id counter happen inside ONE critical section (or are one
     atomic read-modify-write whose result is the id) — the protocol `ids_distinct` is about. -/
